@@ -46,20 +46,34 @@ def tree_hash():
 
 
 def export_all(sd_base, wd, tier, timeout, only=None):
-    """One TLC process (1 worker, BFS) over all configurations = design-level exploration + schedule export."""
-    sd = os.path.join(wd, "mc")
-    shutil.copytree(sd_base, sd)
-    os.makedirs(os.path.join(sd, "out"))
-    ncfg = swapfsm_cfgs.write(os.path.join(sd, "PeerSwapCfgs.tla"), tier, only)
-    res = vp.tlc("PeerSwapExport", "PeerSwapExport.cfg", sd, workers=1, timeout=timeout, heap="12g", quiet=True)
-    scheds = []
-    for p in sorted(glob.glob(os.path.join(sd, "out", "s_*.json")), key=lambda q: int(q.split("_")[-1].split(".")[0])):
-        s = json.load(open(p))
-        s["cfg"] = harness_cfg(s["chain"])
-        s["cfg"]["min_swap_msat"] = s.get("min_swap_msat", 100000000)
-        scheds.append(s)
-    shutil.rmtree(sd, ignore_errors=True)
-    res["ncfg"] = ncfg
+    """Design-level exploration + schedule export: the configurations are split round-robin over SHARDS TLC processes
+    (1 worker each, BFS - the coverage registers need a single worker); a schedule's coverage key contains its
+    configuration name, so the union of the shards' exports equals the export of one run over all configurations."""
+    nshard = int(os.environ.get("VERIF_SHARDS", "6"))
+
+    def one(i):
+        sd = os.path.join(wd, "mc%d" % i)
+        shutil.copytree(sd_base, sd)
+        os.makedirs(os.path.join(sd, "out"))
+        n = swapfsm_cfgs.write(os.path.join(sd, "PeerSwapCfgs.tla"), tier, only, (i, nshard))
+        if n == 0:
+            return dict(generated=0, distinct=0, depth=0, wall=0.0), [], 0
+        res = vp.tlc("PeerSwapExport", "PeerSwapExport.cfg", sd, workers=1, timeout=timeout, heap="6g", quiet=True)
+        scheds = []
+        for p in sorted(glob.glob(os.path.join(sd, "out", "s_*.json")), key=lambda q: int(q.split("_")[-1].split(".")[0])):
+            s = json.load(open(p))
+            s["cfg"] = harness_cfg(s["chain"])
+            s["cfg"]["min_swap_msat"] = s.get("min_swap_msat", 100000000)
+            scheds.append(s)
+        shutil.rmtree(sd, ignore_errors=True)
+        return res, scheds, n
+
+    t0 = time.time()
+    with ThreadPoolExecutor(nshard) as ex:
+        parts = list(ex.map(one, range(nshard)))
+    res = dict(generated=sum(p[0]["generated"] for p in parts), distinct=sum(p[0]["distinct"] for p in parts),
+               depth=max(p[0]["depth"] for p in parts), wall=time.time() - t0, ncfg=sum(p[2] for p in parts))
+    scheds = sorted((s for p in parts for s in p[1]), key=lambda s: (s["name"], json.dumps(s["steps"], sort_keys=True)))
     return res, scheds
 
 
@@ -151,11 +165,15 @@ def run_all(tier):
                 f.write(json.dumps(s) + "\n")
         trace = os.path.join(wd, "trace.ndjson")
         nodes = tempfile.mkdtemp(prefix="verif-nodes-", dir="/dev/shm" if os.path.isdir("/dev/shm") else None)
+        t1 = time.time()
         vp.run([binp, "-schedules", sp, "-out", trace, "-workers", str(vp.NCPU), "-tmp", nodes], timeout=3000)
         shutil.rmtree(nodes, ignore_errors=True)
+        vp.log("  code: %d schedules run in %.1fs" % (len(scheds), time.time() - t1))
+        t1 = time.time()
         os.makedirs(os.path.join(sd, "v"), exist_ok=True)
         v = vp.validate_trace("PeerSwapTrace", "PeerSwapTrace.cfg", sd, trace, timeout=3000)
         v["viol"] = []
+        vp.log("  trace validation: %.1fs" % (time.time() - t1))
         for p in glob.glob(os.path.join(sd, "v", "*.json")):
             j = json.load(open(p))
             v["viol"] += [dict(t=j["t"], seq=x["seq"], sig=x["sig"]) for x in j["viol"]]
@@ -177,6 +195,7 @@ def run_all(tier):
         for p in glob.glob(os.path.join(sd, "v", "*.json")):
             j = json.load(open(p))
             rviol += [dict(t=j["t"], seq=x["seq"], sig=x["sig"]) for x in j["viol"] if x["sig"].startswith("C22|")]
+        vp.log("  retransmission run + validation: %d schedules" % len(rsched))
         nretx = sum(1 for ln in open(rtrace) if '"ev":"send"' in ln and '"nth":1,' not in ln)
         # per-trace comparison model <-> code (strict conformance, informational)
         last, observed = {}, {}
